@@ -156,6 +156,9 @@ func limitOf(q aQ) int {
 	return max(512, min(adv, 1232))
 }
 
+// forceMix >= 0 pins genR's DNSSEC content choice (see `mix` there).
+var forceMix = -1
+
 // genR builds an upstream response for q. target > 0 asks for a total reply
 // size near target bytes (with `jitter` added to the last payload).
 func genR(r *vlib.R, q aQ, cfg deployCfg, proto string, target int, jitter int) aR {
@@ -186,26 +189,52 @@ func genR(r *vlib.R, q aQ, cfg deployCfg, proto string, target int, jitter int) 
 		measure(&x, q.id)
 		return x
 	}
-	signed := r.Chance(1, 2)
+	// DNSSEC content: 0,1 none; 2,3 fully signed (every denial record with its
+	// RRSIG); 4 denial records WITHOUT any signature; 5 each record signed or
+	// not by a coin; 6 NSEC only; 7 NSEC3 only; 8 RRSIG only (no denial record)
+	mix := r.Intn(9)
+	if forceMix >= 0 {
+		mix = forceMix
+	}
+	signed := mix == 2 || mix == 3 || mix == 8
+	sigFor := func() bool { return signed || (mix == 5 && r.Bool()) }
 	nan := r.Intn(4)
-	if u.rcode == dns.RcodeNameError {
+	if u.rcode == dns.RcodeNameError || (forceMix >= 0 && r.Bool()) {
 		nan = 0
 	}
 	for i := 0; i < nan; i++ {
 		u.an = append(u.an, next('A', r.Intn(48)))
-		if signed {
+		if sigFor() {
 			u.an = append(u.an, next('S', vlib.Pick(r, []int{64, 96, 128})))
 		}
+	}
+	if mix >= 4 && mix <= 7 && r.Chance(1, 5) {
+		u.an = append(u.an, next(vlib.Pick(r, []byte{'N', '3'}), 0)) // a stray denial record in the answer
 	}
 	if q.qtype == int(dns.TypeRRSIG) && r.Chance(2, 3) {
 		u.an = append(u.an, next('S', 64))
 	}
-	if nan == 0 || r.Chance(1, 4) {
+	if nan == 0 || r.Chance(1, 4) || mix >= 4 {
 		u.ns = append(u.ns, next('A', 30))
-		if signed {
+		if sigFor() {
 			u.ns = append(u.ns, next('S', 64))
-			for k := r.Intn(3); k > 0; k-- {
-				u.ns = append(u.ns, next(vlib.Pick(r, []byte{'N', '3'}), 0))
+		}
+		k := 0
+		switch {
+		case mix == 2 || mix == 3:
+			k = r.Intn(3)
+		case mix >= 4 && mix <= 7:
+			k = 1 + r.Intn(2)
+		}
+		for ; k > 0; k-- {
+			kind := vlib.Pick(r, []byte{'N', '3'})
+			if mix == 6 {
+				kind = 'N'
+			} else if mix == 7 {
+				kind = '3'
+			}
+			u.ns = append(u.ns, next(kind, 0))
+			if sigFor() {
 				u.ns = append(u.ns, next('S', 64))
 			}
 		}
@@ -468,6 +497,32 @@ func gen(r *vlib.R, n int, tier string, emit func(string)) {
 			if r.Chance(1, 25) {
 				// the same malformed stream at the entries that have no header gate of their own
 				emit(fmt.Sprintf("srv raw %s %s %s", vlib.Pick(r, []string{"http", "msgdoh", "msgdoq", "rawudp", "rawtcp", "inline"}), vlib.Hex(genMalformed(r)), plainR))
+				continue
+			}
+			if r.Chance(1, 10) {
+				// denial records with and without signatures, warmed into the
+				// cache and then asked again by DO=0 clients on the byte path
+				q := genQ(r)
+				q.opcode, q.qtype = 0, vlib.Pick(r, []int{int(dns.TypeA), int(dns.TypeAAAA), int(dns.TypeTXT)})
+				q.cd = false
+				q.opt = aOpt{present: true, udp: 1232, do: false}
+				forceMix = vlib.Pick(r, []int{4, 4, 5, 6, 7, 8, 2})
+				u := genR(r, q, cfg, "udp", 0, 0)
+				forceMix = -1
+				u.mode, u.tc, u.rcode = 'e', false, 0
+				emit(fmt.Sprintf("srv q rawudp %s %s", q, u))
+				for h := 0; h < 3; h++ {
+					hq := q
+					hq.rd, hq.ad = q.rd, r.Chance(1, 4)
+					switch r.Intn(3) {
+					case 0:
+						hq.opt = aOpt{}
+					case 1:
+						hq.opt = aOpt{present: true, udp: vlib.Pick(r, []int{512, 1232, 4096}), do: false, opts: genClientOptions(r)}
+					}
+					emit(fmt.Sprintf("srv q %s %s %s", vlib.Pick(r, []string{"rawudp", "rawtcp", "inline", "sockudp", "socktcp"}), hq, u))
+				}
+				k += 3
 				continue
 			}
 			q := genQ(r)
